@@ -45,6 +45,13 @@ func kMerge(c J) interface{} {
 	}
 	for i, s := range arr(c, "steps") {
 		st := obj(s)
+		if b, _ := st["restart"].(bool); b {
+			// start over from a fresh copy of A (the same option values may be used again)
+			cfg, err = ucfg.NewFrom(buildValue(c["a"]), buildOpts(c["optsA"])...)
+			if err != nil {
+				return J{"stage": "a", "res": canonErr(err)}
+			}
+		}
 		var src interface{}
 		if b, _ := st["self"].(bool); b {
 			src = cfg // the very same object as source and destination
